@@ -47,12 +47,12 @@ FAULT_IDX = {n: i for i, (n, _) in enumerate(FAULTS)}
 # data faults at read steps
 DATA_FAULTS = ["eof", "garbage", "longline"]
 
-STEPS = ["none", "connect", "send_headers", "send_body", "read0", "read1", "read2", "read3"]
+STEPS = ["none", "connect", "send_headers", "send_body", "read0", "read1", "read2", "read3", "sleep"]
 
 BODY = b"0123456789"
 
 RESP_KINDS = ["cl_keepalive", "cl_close", "redirect302", "retry503", "chunked", "close_delimited", "h204", "redirect302_gzip6",
-              "retry503_gzip6"]
+              "retry503_gzip6", "retry503_after1"]
 
 
 def _gz6(b):
@@ -79,6 +79,8 @@ def wire(kind: int):
         return [b"HTTP/1.1 200 OK\r\n", b"Transfer-Encoding: chunked\r\n\r\n", b"4\r\n0123\r\n", b"6\r\n456789\r\n0\r\n\r\n"]
     if kind == 5:
         return [b"HTTP/1.1 200 OK\r\n", b"X: y\r\n\r\n", BODY[:4], BODY[4:]]
+    if kind == 9:
+        return [b"HTTP/1.1 503 Unavailable\r\n", b"Retry-After: 1\r\nContent-Length: 10\r\n\r\n", BODY[:4], BODY[4:]]
     if kind in (7, 8):
         enc = b"Content-Encoding: gzip, gzip, gzip, gzip, gzip, gzip\r\nContent-Length: %d\r\n\r\n" % len(GZ6)
         if kind == 7:
@@ -232,7 +234,13 @@ def _step_body(maxsize, idle, leased_n, dropped_mask, block, preload, relmode, r
     step = P.step
     peer = Peer(step, fault, dfault, resp_kind)
     netw = N.install(peer)
-    E.install_clock()
+    clock = E.install_clock()
+    if step == 8:
+        # the fault strikes inside Retry.sleep() (Retry-After / back-off wait between two attempts)
+        def _sleep(sec, _peer=peer):
+            if _peer.armed and not _peer.fired:
+                _peer._raise()
+        clock.sleep = _sleep
     try:
         pool = CutPool("h", 80, maxsize=maxsize, block=block)
         pool._inv = lambda: inv(pool, netw, leased, maxsize)
@@ -638,6 +646,8 @@ def JOBS(tier):
     swallowed = (F["epipe"], F["reset"], F["eprototype"])
     # (B1) no fault: every response kind x every disposal, small pre-states
     for rk in allk:
+        if rk == 9:
+            continue          # only used with the sleep step below
         if rk in (7, 8):
             # stacked codings only matter where urlopen itself drains the response (followed 302 / retried 503)
             job(0, -1, -1, [rk], [0, 4], rkinds=(2,), relmodes=(0, 2), ks=(3,))
@@ -677,6 +687,8 @@ def JOBS(tier):
             for f in (F["timeout"], F["reset"], F["interrupt"]):
                 job(s, f, -1, [rk], [0], rkinds=(2,), relmodes=(0, 2))
             job(s, -1, 0, [rk], [0], rkinds=(2,), relmodes=(0, 2))
+    # (B5) an interrupt inside the wait between two attempts: the response being retried has been dealt with by then
+    job(8, F["interrupt"], -1, [9], [0], rkinds=(2,), relmodes=(0, 1, 2))     # (time.sleep raises nothing else)
     # (A) queue mechanics: all pre-states (idle/leased/dropped, maxsize<=2|3) x block x preload x release
     for (step, f, d, rk, disps) in [
         (0, -1, -1, 0, [0]), (0, -1, -1, 0, [2]), (0, -1, -1, 1, [0, 5]), (0, -1, -1, 2, [0]), (0, -1, -1, 3, [0]),
